@@ -240,6 +240,8 @@ def replay_progs(ctx: Ctx, prop: str, clauses: set[str], kind=None, only_kinds: 
     if prop == "C24":
         # without assertions the unused bindings become bare expression statements (`var_0.total`)
         cases = cases + [dict(c, assertions=False) for c in cases[: len(cases) // 2]]
+    if prop == "C20":
+        cases = [dict(c, filter=False, roundtrip=False) for c in cases]
     if prop == "C18":
         cases = cases + [dict(c, roundtrip=False) for c in replay_cases(ctx, wide=True)[:150]]
         # assertions filtered irregularly, as the mutation-analysis based generation does
